@@ -328,32 +328,34 @@ class YP(object):
         q = self.call(goal)
         yield next(q)
 
+    def _goal_name_args(self, term):
+        '''returns (name, args) of the callable term that term stands for. term may be
+        an atom, a functor or a variable bound to one of these.'''
+        term = get_value(term)
+        if isinstance(term, Functor):
+            return term._name, term._args
+        if isinstance(term, Atom):
+            return term.name(), []
+        raise YPException('Not a callable term: %s' % term)
+
     def asserta(self, term):
         '''asserta(Term) adds Term to the facts database at the beginning.'''
-        if isinstance(term, Functor):
-            self.assert_fact(self.atom(term._name), term._args, False)
-        elif isinstance(term, Atom):
-            self.assert_fact(term, [], False)
+        name, args = self._goal_name_args(term)
+        self.assert_fact(self.atom(name), args, False)
         return YPSuccess()
 
     def assertz(self, term):
         '''assertz(Term) adds Term to the facts database at the end.'''
-        if isinstance(term, Functor):
-            self.assert_fact(self.atom(term._name), term._args)
-        elif isinstance(term, Atom):
-            self.assert_fact(term, [])
+        name, args = self._goal_name_args(term)
+        self.assert_fact(self.atom(name), args)
         return YPSuccess()
 
     def retract(self, term):
         '''retract(Term) removes all dynamic facts matching Term and backtracks over identical clauses.'''
-        if isinstance(term, Functor):
-            name = term._name
-            args = term._args
-        elif isinstance(term, Atom):
-            name = term
-            args = []
+        name, args = self._goal_name_args(term)
 
-        remaining_clauses = self._find_predicates(name, len(args))[:]
+        # a predicate without facts has nothing to retract: fail, do not raise
+        remaining_clauses = self._predicates_store.get((name, len(args)), [])[:]
         i = 0
         while i < len(remaining_clauses):
             clause = remaining_clauses[i]
@@ -368,14 +370,9 @@ class YP(object):
 
     def retractall(self, term):
         '''retractall(Term) removes all dynamic facts matching Term, without backtracking over identical clauses.'''
-        if isinstance(term, Functor):
-            name = term._name
-            args = term._args
-        elif isinstance(term, Atom):
-            name = term
-            args = []
+        name, args = self._goal_name_args(term)
         remaining_clauses = []
-        for clause in self._find_predicates(name, len(args)):
+        for clause in self._predicates_store.get((name, len(args)), []):
             match = False
             for cut in clause.match(args):
                     match = True
